@@ -7,6 +7,6 @@ CONSTANTS
   Dev = 4
   CallLens <- AllLens
   CallBLens <- AllLens
-  ByteSet <- AllBytes
+  ByteSet <- QuickBytes
 VIEW ViewNoHist
-INVARIANTS TypeOK StrictIsCanonical PrintParses RoundTrips BytesDecision
+INVARIANTS TypeOK StrictIsCanonical PrintParses RoundTrips BytesDecision EqualIsBytes Constructed
